@@ -69,8 +69,10 @@ def run(chk: Check, model):
                     sites.append((q, n.func.attr, n, fi))
     chk.floor("C06.callers", "step-like call sites", len(sites), 7)
     for q, attr, n, fi in sites:
-        allowed = ALLOWED_SITES.get(q)
-        ok = allowed is not None and attr in allowed[0]
+        homes = model.home_functions(q)  # a helper extracted later counts as part of the functions that call it
+        alloweds = [ALLOWED_SITES.get(h) for h in homes]
+        allowed = alloweds[0] if alloweds else None
+        ok = bool(alloweds) and all(a is not None and attr in a[0] for a in alloweds)
         chk.add("C06.callers", f"{q}:{attr}", ok,
                 (f"call of .{attr}() in {q} ({allowed[1]})" if ok else
                  f"unexpected call of .{attr}() in {q}: the user's step may only be reached from {sorted(ALLOWED_SITES)}"),
@@ -198,11 +200,12 @@ def run(chk: Check, model):
     if ev.notes:
         chk.notes.extend(ev.notes)
     for name in ("_run_node", "_run_generation", "_run_S"):
+        name = model.local_name(f"partition_runner.make_run_partition_excl_supervisor.{name}")
         if name not in r.env or r.env[name][0] != "closure":
             raise AnalysisError(f"closure {name} not found in make_run_partition_excl_supervisor")
     # _run_node
     n0 = len(ev.events)
-    ev.invoke(r.env["_run_node"], [T.sym("kind"), T.sym("graph_state"), T.sym("timings_node")], r.frame)
+    ev.invoke(r.env[model.local_name("partition_runner.make_run_partition_excl_supervisor._run_node")], [T.sym("kind"), T.sym("graph_state"), T.sym("timings_node")], r.frame)
     evs = _step_events(ev.events[n0:], ("step",))
     lo, hi, w = flow.count_range(evs, T.TRUE)
     f_node = model.func("partition_runner.make_run_partition_excl_supervisor._run_node")
@@ -218,7 +221,7 @@ def run(chk: Check, model):
                 f"receiver is {T.show(recv)}, expected nodes[kind]", chk.loc(f_node, evs[0].node))
     # _run_generation
     n0 = len(ev.events)
-    ev.invoke(r.env["_run_generation"], [T.sym("graph_state"), T.sym("timings_gen")], r.frame)
+    ev.invoke(r.env[model.local_name("partition_runner.make_run_partition_excl_supervisor._run_generation")], [T.sym("graph_state"), T.sym("timings_gen")], r.frame)
     sub = ev.events[n0:]
     f_gen = model.func("partition_runner.make_run_partition_excl_supervisor._run_generation")
     chk.used(f_gen.qualname)
@@ -252,11 +255,11 @@ def run(chk: Check, model):
         # the true branch is the first callable
         tb = cond.args[1] if len(cond.args) > 2 else None
         cl = ev.closures.get(tb[1]) if tb is not None and tb[0] == "closure" else None
-        ok = cl is not None and cl.kind == "partial" and cl.inner[0] == "closure" and ev.closures[cl.inner[1]].qualname.endswith("._run_node")
+        ok = cl is not None and cl.kind == "partial" and cl.inner[0] == "closure" and model.reference(ev.closures[cl.inner[1]].qualname).endswith("._run_node")
         chk.add("C06.count", "_run_generation: true branch is the node step", ok, "the branch taken when run=True is not functools.partial(_run_node, kind)", chk.loc(f_gen, cond.node))
     # _run_S itself: no direct step call
     n0 = len(ev.events)
-    ev.invoke(r.env["_run_S"], [T.sym("graph_state")], r.frame)
+    ev.invoke(r.env[model.local_name("partition_runner.make_run_partition_excl_supervisor._run_S")], [T.sym("graph_state")], r.frame)
     f_S = model.func("partition_runner.make_run_partition_excl_supervisor._run_S")
     chk.used(f_S.qualname)
     direct = [e for e in _step_events(ev.events[n0:], ("step",)) if e.func == f_S.qualname]
